@@ -11,6 +11,7 @@ import ALV.Lemmas.C09StftRun
 import ALV.Lemmas.C09Err
 import ALV.Lemmas.C09Wnd
 import ALV.Lemmas.C09R4
+import ALV.Lemmas.C09Src
 import Mathlib.Algebra.Order.Field.Rat
 import ALV.Common.Audit
 
@@ -1282,6 +1283,91 @@ theorem pv_window (env : String → Option (WObj K)) (size : Nat) (i : Int) (t :
   ⟨rfl, ⟨_, rfl, rfl, rfl⟩, rfl⟩
 
 end r4_tables
+
+/-! ## The model is what the source says (round 5)
+
+`ALV/Gen/C09Src.lean` is rewritten on every check by `harness/props/c09_tr.py` from the text of
+`audiolazy/lazy_analysis.py` (read with `ast`): `overlap_add.list` statement by statement, the keyword
+logic of the stft `wrapper`, the window paragraph of `blk_gen`.  Each regenerated definition IS the
+hand-written model function, for every carrier — so every theorem above about `olaLoop`, `normWnd`,
+`stftPlan`, … is a theorem about the definitions regenerated from the source of the repo under test,
+and an edit of the source that changes the meaning of a translated paragraph breaks the theorem named
+after it. -/
+section src
+set_option linter.unusedSectionVars false
+open ALV.C09.Src
+variable {α : Type}
+
+/-- the signature `(blk_sig, size=None, hop=None, wnd=None, normalize=True)` as read from the source
+binds `ola_params` as the model's `bindOla` does (names, order, defaults) -/
+theorem src_bindOla_is_model :
+    ALV.Gen.C09.bindOla = bindOla ∧ ALV.Gen.C09.olaSig.map (·.1) = olaSigNames := ⟨bindOla_eq, rfl⟩
+
+/-- `if size is None: … size = len(blk_sig.peek()) … except StopIteration: return` -/
+theorem src_detectSize_is_model : @ALV.Gen.C09.detectSize α = detectSize := detectSize_eq
+
+/-- `if callable(wnd) and not isinstance(wnd, Stream): wnd = wnd(size)` (both places) -/
+theorem src_callStep_is_model : @ALV.Gen.C09.callStep α = callStep := callStep_eq
+
+/-- the window paragraph of `overlap_add.list` on the three kinds of objects -/
+theorem src_resolveOlaObj_is_model : @ALV.Gen.C09.resolveOlaObj α = resolveOlaObj := resolveOlaObj_eq
+
+/-- the window paragraph of `blk_gen` -/
+theorem src_resolveStftObj_is_model : @ALV.Gen.C09.resolveStftObj α = resolveStftObj :=
+  resolveStftObj_eq
+
+section gain
+variable [Add α] [Neg α] [Div α] [OfNat α 0] [OfNat α 1] [NatCast α] [LT α] [DecidableLT α] [DecidableEq α]
+
+/-- `steps = Stream(wnd).map(abs).blocks(hop).map(tuple); gain = max(xmap(sum, xzip(*steps)))` -/
+theorem src_hopGain_is_model : (ALV.Gen.C09.hopGain : Nat → List α → Option α) = hopGain := Src.hopGain_eq
+
+/-- the `if normalize:` paragraph -/
+theorem src_normWnd_is_model :
+    (ALV.Gen.C09.normWnd : Nat → Nat → Bool → Option (List α) → Except Err (Option (List α))) = normWnd :=
+  normWnd_eq
+end gain
+
+section loop
+variable [Add α] [Mul α] [OfNat α 0]
+
+/-- the two slice assignments of one iteration (`mem[:s_h] = xmap(add, mem[hop:], blk)`,
+`mem[s_h:] = blk` on a block ITERATOR) -/
+theorem src_olaStep_is_model :
+    (ALV.Gen.C09.olaStep : Nat → Nat → List α → List α → List α) = olaStep := olaStep_eq
+
+/-- the `for` loop with its size check and yields, and the flush after it -/
+theorem src_olaLoop_is_model :
+    (ALV.Gen.C09.olaLoop : Nat → Nat → List α → List (List α) → Out α) = olaLoop := Src.olaLoop_eq
+
+/-- `if wnd:` (length check, `wnd + [0.]`, windowed blocks), `mem = [0.] * size`, the loop -/
+theorem src_olaCore_is_model :
+    (ALV.Gen.C09.olaCore : Nat → Nat → Option (List α) → List (List α) → Out α) = olaCore := olaCore_eq
+end loop
+
+section top
+variable [Add α] [Mul α] [Neg α] [Div α] [OfNat α 0] [OfNat α 1] [NatCast α] [LT α] [DecidableLT α] [DecidableEq α]
+
+/-- the paragraphs of `overlap_add.list` in source order -/
+theorem src_overlapAddListObj_is_model :
+    (ALV.Gen.C09.overlapAddListObj : List (List α) → Option Nat → Option Nat → PyWnd α → Bool → Out α) =
+      overlapAddListObj := overlapAddListObj_eq
+end top
+
+/-- `k.startswith("ola_")` / `k[len("ola_"):]` -/
+theorem src_stripOla_is_model : ALV.Gen.C09.stripOla = stripOla := stripOla_eq
+
+/-- `for k, v in kws.items(): …` of the wrapper -/
+theorem src_routeRest_is_model : ALV.Gen.C09.routeRest = routeRest := routeRest_eq
+
+/-- the keyword logic of the wrapper: merge, the two checks, the pops with their defaults in source
+order, `ola_params = blk_params.copy()` at its place, the routing loop -/
+theorem src_stftPlan_is_model : ALV.Gen.C09.stftPlan = stftPlan := stftPlan_eq
+
+/-- not vacuous: the regenerated loop computes (two blocks of size 2, hop 1, over ℤ) -/
+example : (ALV.Gen.C09.olaLoop 2 1 [0, 0] [[1, 2], [3, 4]] : Out Int).out = [1, 5, 4] := by decide
+
+end src
 
 end ALV.Props.C09
 
